@@ -63,6 +63,52 @@ func (fv *FV) modifiedIn(nodes ...ast.Node) *modSet {
 			}
 		}
 	}
+	// variables bound inside these nodes to a location reached from another variable (x := p.f[k], x, ok := m[k],
+	// for _, v := range m) refer to the same object: a write through them is a write to that root as well
+	aliasOf := map[types.Object]types.Object{}
+	for _, n := range nodes {
+		if n == nil {
+			continue
+		}
+		ast.Inspect(n, func(n ast.Node) bool {
+			switch x := n.(type) {
+			case *ast.AssignStmt:
+				if len(x.Rhs) == 1 && len(x.Lhs) >= 1 {
+					if id, ok := x.Lhs[0].(*ast.Ident); ok && id.Name != "_" {
+						if lo, ok := fv.info.ObjectOf(id).(*types.Var); ok {
+							if so := fv.ss.Of(lo.Type()); so.Kind == KMap || so.Kind == KPtr || so.Kind == KSlice {
+								if r := fv.rootObj(x.Rhs[0]); r != nil && r != lo {
+									aliasOf[lo] = r
+								}
+							}
+						}
+					}
+				}
+			case *ast.RangeStmt:
+				if id, ok := x.Value.(*ast.Ident); ok && id != nil && id.Name != "_" {
+					if lo, ok := fv.info.ObjectOf(id).(*types.Var); ok {
+						if so := fv.ss.Of(lo.Type()); so.Kind == KMap || so.Kind == KPtr {
+							if r := fv.rootObj(x.X); r != nil && r != lo {
+								aliasOf[lo] = r
+							}
+						}
+					}
+				}
+			}
+			return true
+		})
+	}
+	defer func() {
+		for changed := true; changed; {
+			changed = false
+			for o := range ms.objs {
+				if r, ok := aliasOf[o]; ok && !ms.objs[r] {
+					ms.objs[r] = true
+					changed = true
+				}
+			}
+		}
+	}()
 	for _, n := range nodes {
 		if n == nil {
 			continue
